@@ -53,9 +53,14 @@ def expected(cfg, m):
                     mm.on_wire(x[0], x[1], x[2])
     return feats, go, acc, fn
 
-def check_transcript(ctx, tx, cfg, m, what, r, meta):
-    """tx: list of (addr, type, data) in wire order"""
+def check_transcript(ctx, tx, cfg, m, what, r, meta, lost=None):
+    """tx: list of (addr, type, data) in wire order. lost = (announcer, data) of a MSG_NODE_LOST that the interface delivered after the
+    track outputs were switched on and before the initial values: features and switch-on as configured, initial values without that board"""
     feats, go, acc, fn = expected(cfg, m)
+    if lost is not None:
+        m2 = m.clone()
+        m2.on_uplink(lost[0], C('MSG_NODE_LOST'), lost[1])
+        _f, _g, acc, fn = expected(cfg, m2)
     T = {k: C(k) for k in ('MSG_FEATURE_SET', 'MSG_SYS_ENABLE', 'MSG_CS_SET_STATE', 'MSG_ACCESSORY_SET', 'MSG_CS_ACCESSORY', 'MSG_LC_OUTPUT', 'MSG_CS_DRIVE')}
     idx_enable = [i for i, x in enumerate(tx) if x[1] == T['MSG_SYS_ENABLE']]
     if len(idx_enable) != 1:
@@ -117,14 +122,32 @@ def gen_scenario(ctx, k):
         # an unanswered request keeps part of the node's response budget until it expires (C03): commands submitted meanwhile may be held.
         # Time passes and every node says something unrelated, so that whatever was held is transmitted before the transcript is judged
         settle = ['advance 3'] + [up(model.build_msg(m0.addr[b['id']], 0, C('MSG_BM_CURRENT'), bytes([250, 0]))) for b in cfg['boards'] if m0.connected(b['id'])] + ['quiesce', 'flush', 'quiesce']
+    lost = None
+    if rng.random() < 0.3:
+        # a board drops off the bus DURING start-up: the interface reports it when it sees the (first) occupancy address query, i.e. after the
+        # track outputs were switched on and half a second before the initial values are commanded. Nothing is commanded for it any more
+        def dep(a):
+            return 0 if a == (0, 0, 0) else 1 if a[1] == 0 else 2 if a[2] == 0 else 3
+        conn = [b for b in cfg['boards'] if m0.connected(b['id']) and m0.addr[b['id']] != (0, 0, 0)]
+        leaves = [b for b in conn if not any(o is not b and dep(m0.addr[o['id']]) > dep(m0.addr[b['id']]) and
+                                             m0.addr[o['id']][:dep(m0.addr[b['id']])] == m0.addr[b['id']][:dep(m0.addr[b['id']])] for o in conn)]
+        withinit = [b for b in leaves if any(a.get('initial') is not None for k_ in ('points_board', 'points_dcc', 'signals_board', 'signals_dcc', 'peripherals') for a in (b.get(k_) or []))
+                    or cfggen.is_track_output(b)]
+        if leaves:
+            L = rng.choice(withinit or leaves)
+            a = m0.addr[L['id']]
+            parent = tuple(list(a[:dep(a) - 1]) + [0] * (3 - (dep(a) - 1)))
+            data = bytes([2, a[dep(a) - 1]]) + L['uid']
+            lost = (parent, data)
+            sc.add(f'bus inject {C("MSG_BM_ADDR_GET_RANGE"):02x} 1 {model.build_msg(parent, 0, C("MSG_NODE_LOST"), data).hex()}')
     sc.add(f'start {d} 0', 'quiesce', 'flush', 'quiesce', *settle, 'mark after_start')
-    with_reset = rng.random() < 0.5
+    with_reset = rng.random() < 0.5 and lost is None
     if with_reset:
         sc.add('reset', 'quiesce', 'flush', 'quiesce', *settle, 'mark after_reset')
     sc.add('stop')
-    return sc.text(), cfg, nodes, with_reset
+    return sc.text(), cfg, nodes, with_reset, lost
 
-def evaluate(ctx, r, cfg, nodes, with_reset, meta):
+def evaluate(ctx, r, cfg, nodes, with_reset, meta, lost=None):
     if ctx.generic_failures(r, meta):
         return
     if runner.outcome(r) != 'ok':
@@ -138,7 +161,11 @@ def evaluate(ctx, r, cfg, nodes, with_reset, meta):
     ev = r.events
     a_start = next(i for i, e in enumerate(ev) if e.get('e') == 'mark' and e.get('m') == 'after_start')
     tx1 = [(tuple(e['addr']), e['type'], bytes.fromhex(e['data'])) for e in ev[begin:a_start] if e.get('e') == 'txm']
-    nt = check_transcript(ctx, tx1, cfg, m, 'start', r, meta)
+    if lost is not None and not any(e.get('e') == 'up' and e.get('injected') for e in ev[begin:a_start]):
+        lost = None                      # no board with occupancy detection: the trigger never came
+    if lost is not None:
+        ctx.count('node_lost_during_startup')
+    nt = check_transcript(ctx, tx1, cfg, m, 'start' if lost is None else 'start+node-lost', r, meta, lost)
     if nt is False and ctx.viol:
         pass
     if with_reset:
@@ -161,6 +188,6 @@ def run(ctx):
     res = runner.run_many('asan', [(i, j[0]) for i, j in enumerate(jobs)], timeout=600)
     for j, r in zip(jobs, res):
         meta = {'digest': hashlib.sha1(j[0].encode()).hexdigest()[:12], 'boards': len(j[1]['boards']), 'reset': j[3]}
-        evaluate(ctx, r, j[1], j[2], j[3], meta)
+        evaluate(ctx, r, j[1], j[2], j[3], meta, j[4] if len(j) > 4 else None)
     ctx.sample({'bus': [l for l in jobs[0][0].split('\n') if l.startswith('bus node')][:5]})
     return ctx.finish(min_eval=50, min_nontrivial=20)
